@@ -68,6 +68,11 @@ def specStep (l : Log K V) : Op K V → Log K V × Res K V
   | .setUnhashable _ => (l, .rejected)
   | .setBadKey _ _ _ => (l, .rejected)
   | .badOperand => (l, .rejected)
+  | .const r => (l, r)
+  -- the inherited `in` / `get` see the key tuples: a tuple is "in" the dict when it is the whole
+  -- key tuple of a value
+  | .contains t => (l, .bool (specGetT l t).isSome)
+  | .dictGet t => (l, Res.orNone (specGetT l t))
 
 def specRun : Log K V → List (Op K V) → Log K V × List (Res K V)
   | l, [] => (l, [])
@@ -187,6 +192,10 @@ def sdSpecStep (g : SDSpec K V) : SOp K V → SDSpec K V × Res K V
   -- an operation that raises changes nothing: map, attributes and default are what they were
   | .setRefused _ => (g, .rejected)
   | .rejected => (g, .rejected)
+  | .const r => (g, r)
+  | .getT t => (g, .ofVal (specGetT g.log t))
+  | .contains t => (g, .bool (specGetT g.log t).isSome)
+  | .dictGet t => (g, Res.orNone (specGetT g.log t))
 
 def sdSpecRun : SDSpec K V → List (SOp K V) → SDSpec K V × List (Res K V)
   | g, [] => (g, [])
